@@ -375,7 +375,8 @@ MANIFEST_TEXT['C11'] = {'claim': 'privileged/unprivileged x requested/not x flag
                         'note': 'the migration-inducing schedule is forced through the hook and its strength measured on a control goroutine in the same child',
                         'technique': 'property-based testing (rapid) with schedule-point fault injection; strace cross-check of call order and thread'}
 
-_SANDBOX = [{'name': 'sandbox', 'from_repo': 'github.com/elastic/go-seccomp-bpf/cmd/sandbox', 'tags': ''}, 'probe']
+_SANDBOX = [{'name': 'sandbox', 'from_repo': 'github.com/elastic/go-seccomp-bpf/cmd/sandbox', 'tags': ''}, 'probe',
+            {'name': 'sandbox', 'from_repo': 'github.com/elastic/go-seccomp-bpf/cmd/sandbox', 'tags': '', 'goarch': '386'}, {'name': 'probe', 'goarch': '386'}]
 
 PROPS['C15'] = {
     'level': 'exploration',
